@@ -145,7 +145,7 @@ func DecodeStsdSR(hdr BoxHeader, startPos uint64, sr bits.SliceReader) (Box, err
 	if stsd.SampleCount != sampleCount {
 		return nil, fmt.Errorf("stsd sample count mismatch")
 	}
-	return &stsd, nil
+	return &stsd, sr.AccError()
 }
 
 // Type - box-specific type
